@@ -54,6 +54,8 @@ struct St {
     tasks_ended: BTreeSet<u64>,
     main_done: bool,
     published: u32,
+    /// (file id, version) of every publication, in the order they were sent
+    publications: Vec<(u32, i32)>,
     /// events passed per thread (program counters for state matching)
     pcs: BTreeMap<Key, u32>,
     model_violation: Option<String>,
@@ -151,16 +153,19 @@ impl Shared {
                         st.snapshots += 1;
                         st.pending_starts += 1;
                     }
+                    // a snapshot lives until it is dropped - normally when its task's closure returns, but a task
+                    // may let go of it earlier (hook H4)
+                    Ev::SnapshotDropped => st.snapshots = st.snapshots.saturating_sub(1),
                     Ev::TaskEnd(raw) => {
                         let id = task_of(&mut ids.lock().unwrap(), raw);
                         st.tasks_ended.insert(id);
-                        st.snapshots = st.snapshots.saturating_sub(1);
                         if st.running == Some(key) {
                             st.running = None;
                         }
                         KEY.with(|k| k.set(None));
                     }
                     Ev::Published => st.published += 1,
+                    Ev::PublishedFor(file, version) => st.publications.push((file, version)),
                     _ => {}
                 }
                 self.cv.notify_all();
@@ -229,6 +234,8 @@ pub struct Outcome {
     pub problem: Option<(String, String)>,
     pub states: Vec<String>,
     pub steps: u64,
+    /// (file id, version) of every publication, in the order they were sent
+    pub publications: Vec<(u32, i32)>,
 }
 
 /// Executes one schedule (choice prefix, then first-enabled) of a scenario.
@@ -424,6 +431,7 @@ pub fn execute(scenario: &[usize], prefix: &[usize], dir: &PathBuf) -> Outcome {
     }
     let _ = main.join();
     let published = shared.m.lock().unwrap().published;
+    out.publications = shared.m.lock().unwrap().publications.clone();
     match rx.try_recv() {
         Ok(Ok(responses)) => {
             if let Some(bad) = responses.iter().find(|r| !r.ends_with(": ok")) {
@@ -516,6 +524,81 @@ fn explore_scenario(scenario: &[usize], dir: &PathBuf, prune: bool, ctx: &mut Ct
     ctx.add("states", distinct_states.len() as u64);
     ctx.sample(|| json!({ "scenario": show_scenario(scenario), "distinct_states": distinct_states.len() }));
     !ctx.expired()
+}
+
+/// The notification letters of the menu (no requests): change of the root, of a second document, of an unseen third, resend.
+pub fn notification_letters() -> Vec<usize> {
+    (0..menu_len()).filter(|&m| !is_request(m)).collect()
+}
+
+/// First pair of publications of one file whose versions decrease, if any.
+pub fn version_regression(pubs: &[(u32, i32)]) -> Option<String> {
+    let mut last: BTreeMap<u32, i32> = BTreeMap::new();
+    for (k, (file, v)) in pubs.iter().enumerate() {
+        if let Some(prev) = last.get(file) {
+            if v < prev {
+                return Some(format!("publication #{k} carries version {v} for file {file} after version {prev} had been published for it; all publications (file, version): {pubs:?}"));
+            }
+        }
+        last.insert(*file, *v);
+    }
+    None
+}
+
+/// Every schedule of one scenario (state-matching pruning), with the publication-order oracle of C11.
+pub fn explore_publication_order(scenario: &[usize], dir: &PathBuf, ctx: &mut Ctx) -> bool {
+    let mut stack: Vec<Vec<usize>> = vec![vec![]];
+    let mut expanded: BTreeSet<String> = BTreeSet::new();
+    let mut stuck = 0;
+    while let Some(prefix) = stack.pop() {
+        ctx.trace(|| case_json(scenario, &prefix));
+        let out = execute(scenario, &prefix, dir);
+        ctx.case(out.choices.iter().any(|(n, _)| *n > 1));
+        ctx.add("schedules", 1);
+        let schedule: Vec<usize> = out.choices.iter().map(|(_, c)| *c).collect();
+        if out.deadlock.is_some() || out.problem.is_some() {
+            // liveness is C08's verdict; here such an execution only ends the scenario
+            stuck += 1;
+        } else if let Some(d) = version_regression(&out.publications) {
+            ctx.fail(Failure::new("version-decreased-under-schedule", show_scenario(scenario), format!("schedule {schedule:?}: {d}"), case_json(scenario, &schedule)));
+        }
+        for i in (prefix.len()..out.choices.len()).rev() {
+            let (n, c) = out.choices[i];
+            if let Some(s) = out.states.get(i) {
+                if !expanded.insert(s.clone()) {
+                    continue;
+                }
+            }
+            for alt in (c + 1)..n {
+                let mut p: Vec<usize> = schedule[..i].to_vec();
+                p.push(alt);
+                stack.push(p);
+            }
+        }
+        if stuck >= 2 || ctx.expired() {
+            break;
+        }
+    }
+    !ctx.expired()
+}
+
+/// Re-executes one stored (scenario, schedule) case with the publication-order oracle.
+pub fn eval_publication_order(case: &Value) -> Vec<Failure> {
+    let scenario: Vec<usize> = case["scenario"].as_array().map(|a| a.iter().filter_map(|x| x.as_u64()).map(|x| x as usize).collect()).unwrap_or_default();
+    let schedule: Vec<usize> = case["schedule"].as_array().map(|a| a.iter().filter_map(|x| x.as_u64()).map(|x| x as usize).collect()).unwrap_or_default();
+    let dir = session_dir("C11s", 99);
+    let out = execute(&scenario, &schedule, &dir);
+    let _ = std::fs::remove_dir_all(&dir);
+    let sched: Vec<usize> = out.choices.iter().map(|(_, c)| *c).collect();
+    match version_regression(&out.publications) {
+        Some(d) => vec![Failure::new("version-decreased-under-schedule", show_scenario(&scenario), format!("schedule {sched:?}: {d}"), case_json(&scenario, &sched))],
+        None => vec![],
+    }
+}
+
+pub fn shrink_scenario(case: &Value) -> Vec<Value> {
+    let scenario: Vec<usize> = case["scenario"].as_array().map(|a| a.iter().filter_map(|x| x.as_u64()).map(|x| x as usize).collect()).unwrap_or_default();
+    tgv_core::shrink::deletions(&scenario).into_iter().map(|s| case_json(&s, &[])).collect()
 }
 
 impl Engine for C08 {
